@@ -1,7 +1,7 @@
 """psv.props — which rules decide which property."""
 from . import core
 from .report import Check
-from .rules import cw, ed, mt
+from .rules import cw, ed, mt, ts, vg
 
 
 def c18(tier):
@@ -54,7 +54,65 @@ def c12(tier):
     return C.finish()
 
 
-TABLE = {"C18": c18, "C08": c08, "C12": c12}
+def c20(tier):
+    C = Check("C20", tier,
+              explanation="Ownership typestate of splinetable<std::allocator<void>> decided on the instantiated bodies of every mutator "
+              "(driver unit): no-throw window with resetting handlers / armed cleanup guards (TS-2), initialisation of owned-pointer arrays "
+              "before the next raising element (TS-2b), emptiness guard before populating (TS-3), field coverage and count agreement of "
+              "clear(), move construction and move assignment (TS-4), local heap pairing (TS-5), release independent of ndim (TS-6). "
+              "Decides: a failed operation leaves the table unchanged or empty and destructible, a populated table is never overwritten, "
+              "a moved-from table is empty, every allocation has a matching release. Does not decide behaviour over operation sequences "
+              "against an abstract model, nor allocators with fancy pointers.",
+              assumptions=["std::allocator semantics: deallocate does not raise",
+                           "exceptions are raised only at the elements the effect summary marks (throw, operator new, calls to raising functions)"])
+    P = core.load(tier=tier)
+    ts.run_c20(P, C)
+    C.extra["units"] = sorted(P.units.keys())
+    C.extra["mutators"] = [ts.fshort(f) for f in ts.mutators(P)]
+    return C.finish()
+
+
+def c13(tier):
+    C = Check("C13", tier,
+              explanation="fit's argument validation decided on the instantiated bodies (both container instantiations): each hazardous use of an "
+              "argument has a throwing guard in canonical relational form that dominates the first member store, per-dimension guards cover "
+              "every dimension (VG-1); no raising element leaves a modified table unprotected (TS-2); the table must be empty to be fitted "
+              "(TS-3); the C wrapper contains and maps failures (CW-1/CW-2). Decides presence, shape and placement of the guards; does not "
+              "decide memory safety inside CHOLMOD / the GLAM reshaping for valid arguments.",
+              assumptions=["the hazards listed in psv/rules/vg.py FIT_OBLIGATIONS are the uses of the arguments that need a guard (derived by reading glam.c, splineutil.c)"])
+    P = core.load(tier=tier)
+    vg.vg1(P, C)
+    ts.ts2(P, C, only=("fit",), rule_floor=2)
+    ts.ts3(P, C, only=("fit",))
+    cw.cw1(P, C, only=("splinetable_glamfit",))
+    cw.cw2(P, C, only=("splinetable_glamfit",))
+    C.extra["units"] = sorted(P.units.keys())
+    return C.finish()
+
+
+def c07(tier):
+    C = Check("C07", tier,
+              explanation="Reader robustness decided structurally: a failing read leaves an empty, destructible object (TS-2/TS-2b on read_fits, "
+              "read_fits_mem, read_fits_core and the file constructor; clear() coverage TS-4), a successful read has passed the validations "
+              "that make lookup and evaluation safe (VG-2, with infeasible status branches pruned by a known-zero status dataflow), the "
+              "emptiness guard precedes populating (TS-3), and the C readers contain and map failures (CW-1/CW-2). Does not decide cfitsio's "
+              "behaviour on corrupted bytes nor termination of evaluation on a loaded table.",
+              assumptions=["cfitsio reports malformed HDUs through its status argument"])
+    P = core.load(tier=tier)
+    ts.ts2(P, C, only=("read_fits", "read_fits_mem", "read_fits_core", "splinetable(std::string,photospline::splinetable)"), rule_floor=4)
+    r = ts.reset_fn_ok(P, C)
+    if r is None:
+        C.ob("TS-4", "~splinetable", "reset-function", False, "include/photospline/splinetable.h",
+             "no clear() member: a partially read table cannot be released")
+    ts.ts3(P, C, only=("read_fits_core", "read_fits", "read_fits_mem"))
+    vg.vg2(P, C)
+    cw.cw1(P, C, only=("readsplinefitstable", "readsplinefitstable_mem"))
+    cw.cw2(P, C, only=("readsplinefitstable", "readsplinefitstable_mem"))
+    C.extra["units"] = sorted(P.units.keys())
+    return C.finish()
+
+
+TABLE = {"C18": c18, "C08": c08, "C12": c12, "C20": c20, "C13": c13, "C07": c07}
 
 
 def run(prop, tier):
